@@ -954,6 +954,8 @@ impl CommitEnv for LsmCommitEnv {
 		if sync {
 			wal_guard.sync()?;
 		}
+		processed_batch.logged_in_wal = wal_guard.get_active_log_number();
+		processed_batch.logged_with_sync = sync;
 		drop(wal_guard);
 
 		Ok(processed_batch)
@@ -966,10 +968,30 @@ impl CommitEnv for LsmCommitEnv {
 			return Err(Error::Other("verif: injected apply failure".to_string()));
 		}
 
+		// WAL segment that holds a record of this batch.
+		let mut logged_in_wal = batch.logged_in_wal;
 		loop {
 			// Try to add to current memtable
 			let (result, tried) = {
 				let active_memtable = self.core.active_memtable.read()?;
+				// A memtable only vouches for the WAL segments from its own one
+				// onwards: flushing its predecessor marks every older segment as
+				// obsolete. If a rotation has happened since this batch was logged
+				// (triggered by this very apply, or by a concurrent committer), the
+				// record sits in a segment that can be deleted while the batch lives
+				// only in this memtable - and an acknowledged commit would be lost by
+				// the next crash. Log the batch again in the memtable's segment first.
+				// (The read lock keeps the memtable and its segment from rotating
+				// away underneath; lock order active_memtable -> wal as in rotation.)
+				if active_memtable.get_wal_number() > logged_in_wal {
+					let enc_bytes = batch.encode()?;
+					let mut wal_guard = self.core.wal.write();
+					wal_guard.append(&enc_bytes)?;
+					if batch.logged_with_sync {
+						wal_guard.sync()?;
+					}
+					logged_in_wal = wal_guard.get_active_log_number();
+				}
 				(active_memtable.add(batch), Arc::clone(&active_memtable))
 			};
 
